@@ -286,7 +286,12 @@ fn object_images(v: &Value, out: &mut Vec<Vec<String>>) {
 
 fn many_object_claims(n: usize) -> Value {
     let list: Vec<Value> = (0..n).map(|i| if i % 3 == 0 { json!({"a": i, "b": {"c": i}}) } else { json!({"a": i}) }).collect();
-    json!({"iss": "https://issuer.example", "exp": crate::imp::now() + 100000, "list": list, "o": {"p": {"q": {}}}})
+    // objects with many members (more than any padding target of an _sd list), also inside a hidden value and inside an array;
+    // long arrays that begin with scalars and carry objects further back
+    let big = |n: usize, tag: &str| Value::Object((0..n).map(|i| (format!("{}{:03}", tag, i), if i % 40 == 7 { json!({"in": i}) } else { json!(i) })).collect());
+    let mixed: Vec<Value> = (0..40).map(|i| match i { 11 | 29 | 39 => json!({"sensor": i, "cal": {"k": i}}), 20 => json!([{"deep": i}]), _ => if i % 2 == 0 { json!(i) } else { json!(format!("r{}", i)) } }).collect();
+    json!({"iss": "https://issuer.example", "exp": crate::imp::now() + 100000, "list": list, "o": {"p": {"q": {}}},
+           "big": big(130, "m"), "holder_of_big": {"inner": big(70, "n")}, "bigs_in_list": [big(66, "e"), 1, big(64, "f"), big(63, "g")], "readings": mixed})
 }
 
 /// credentials with very many objects, judged on the implementation alone (the extracted model is quadratic in the number of
